@@ -644,6 +644,34 @@ class _Idioms(ast.NodeTransformer):
                 return ast.copy_location(ast.Name(id="int", ctx=ast.Load()), n)
         return n
 
+    def visit_GeneratorExp(self, n):
+        self.generic_visit(n)
+        # networkx: (k for n, k in G.degree()) is dict(G.degree()).values() - the degrees in node order
+        if len(n.generators) == 1:
+            g = n.generators[0]
+            if not g.ifs and not g.is_async and isinstance(g.target, ast.Tuple) and len(g.target.elts) == 2 \
+                    and all(isinstance(x, ast.Name) for x in g.target.elts) and isinstance(n.elt, ast.Name) \
+                    and n.elt.id == g.target.elts[1].id and g.target.elts[0].id != n.elt.id \
+                    and isinstance(g.iter, ast.Call) and isinstance(g.iter.func, ast.Attribute) and g.iter.func.attr == "degree" \
+                    and not g.iter.args and not g.iter.keywords:
+                return ast.copy_location(ast.Call(func=ast.Attribute(value=ast.Call(func=ast.Name(id="dict", ctx=ast.Load()), args=[g.iter],
+                                                                                     keywords=[]), attr="values", ctx=ast.Load()),
+                                                  args=[], keywords=[]), n)
+        return n
+
+    def visit_ListComp(self, n):
+        self.generic_visit(n)
+        # [e(x) for x in (a, b, c)] -> [e(a), e(b), e(c)]
+        if len(n.generators) == 1:
+            g = n.generators[0]
+            if not g.ifs and not g.is_async and isinstance(g.target, ast.Name) and _simple_tuple(g.iter) \
+                    and all(isinstance(x, (ast.Name, ast.Constant)) for x in g.iter.elts) \
+                    and not any(isinstance(z, (ast.Lambda, ast.GeneratorExp, ast.ListComp, ast.SetComp, ast.DictComp, ast.NamedExpr))
+                                for z in ast.walk(n.elt)):
+                return ast.copy_location(ast.List(elts=[_Subst({g.target.id: x}).visit(copy.deepcopy(n.elt)) for x in g.iter.elts],
+                                                  ctx=ast.Load()), n)
+        return n
+
     def visit_Subscript(self, n):
         self.generic_visit(n)
         m = _project_tuple(n)
@@ -658,6 +686,20 @@ class _Idioms(ast.NodeTransformer):
 
     def visit_Call(self, n):
         self.generic_visit(n)
+        # iterating a mapping is iterating its keys: max(d.keys()) -> max(d), likewise min / sorted / list / set / len / ...
+        if isinstance(n.func, ast.Name) and n.func.id in ("max", "min", "sorted", "list", "set", "tuple", "len", "iter", "sum", "any", "all",
+                                                          "enumerate", "frozenset") and len(n.args) >= 1 \
+                and isinstance(n.args[0], ast.Call) and isinstance(n.args[0].func, ast.Attribute) and n.args[0].func.attr == "keys" \
+                and not n.args[0].args and not n.args[0].keywords:
+            n.args[0] = n.args[0].func.value
+        # random.sample(population, k=n) -> random.sample(population, n)
+        if _chain(n.func) == "random.sample" and len(n.args) == 1 and len(n.keywords) == 1 and n.keywords[0].arg == "k":
+            n.args.append(n.keywords[0].value)
+            n.keywords = []
+        # networkx: G.has_node(x) is `x in G` (both are `x in G._node` with unhashable x giving False)
+        if isinstance(n.func, ast.Attribute) and n.func.attr == "has_node" and len(n.args) == 1 and not n.keywords \
+                and not isinstance(n.args[0], ast.Starred):
+            return ast.copy_location(ast.Compare(left=n.args[0], ops=[ast.In()], comparators=[n.func.value]), n)
         # tuple(e(x) for x in (a, b, c)) -> (e(a), e(b), e(c)); the same for list(...)
         if isinstance(n.func, ast.Name) and n.func.id in ("tuple", "list") and len(n.args) == 1 and not n.keywords \
                 and isinstance(n.args[0], (ast.GeneratorExp, ast.ListComp)) and len(n.args[0].generators) == 1:
@@ -1895,7 +1937,8 @@ def split_tuples(fn):
                     and all(isinstance(t, ast.Name) for t in st.targets[0].elts):
                 tg = st.targets[0].elts
                 v = st.value
-                if isinstance(v, ast.Tuple) and len(v.elts) == len(tg) and len({t.id for t in tg}) == len(tg) and all(
+                if isinstance(v, (ast.Tuple, ast.List)) and len(v.elts) == len(tg) and len({t.id for t in tg}) == len(tg) \
+                        and not any(isinstance(x, ast.Starred) for x in v.elts) and all(
                         tg[i].id not in _names(v.elts[j]) for i in range(len(tg)) for j in range(i + 1, len(tg))):
                     # no value reads a name bound to its left: one after the other is the same as all at once
                     # (`times, S = times[n:], S[n:]`)
@@ -1949,7 +1992,9 @@ def rename_apart(fn):
         params = {a.arg for a in scope.args.posonlyargs + scope.args.args + scope.args.kwonlyargs}
         captured = set()
         for n in _scope_nodes(scope):
-            if isinstance(n, (ast.FunctionDef, ast.Lambda, ast.ListComp, ast.SetComp, ast.DictComp, ast.GeneratorExp)) and n is not scope:
+            # list / set / dict comprehensions are evaluated where they stand (their own variables were renamed apart before):
+            # a name read inside one is read at that statement; generators, lambdas and nested functions may run later
+            if isinstance(n, (ast.FunctionDef, ast.Lambda, ast.GeneratorExp)) and n is not scope:
                 captured |= _names(n)
         blocks = _scope_blocks(scope)
         store_kinds = {}
@@ -1966,10 +2011,7 @@ def rename_apart(fn):
             body = getattr(o, f)
             for i, st in enumerate(body):
                 if isinstance(st, ast.Assign) and len(st.targets) == 1 and isinstance(st.targets[0], ast.Name):
-                    if st.targets[0].id in _names(st.value):
-                        defs.setdefault(st.targets[0].id, []).append(None)
-                    else:
-                        defs.setdefault(st.targets[0].id, []).append((st.targets[0], body[i + 1:]))
+                    defs.setdefault(st.targets[0].id, []).append((st.targets[0], body[i + 1:]))
                 elif isinstance(st, ast.For) and not st.orelse:
                     tg = [st.target] if isinstance(st.target, ast.Name) else \
                         (list(st.target.elts) if isinstance(st.target, ast.Tuple) and all(isinstance(e, ast.Name) for e in st.target.elts) else [])
@@ -1986,11 +2028,15 @@ def rename_apart(fn):
             for name_node, region in ds:
                 # the region ends before the first statement that binds x somewhere inside it: loads in that statement
                 # and after it must be covered by the region of another binding (the count below checks that)
+                extra = []
                 for j, s2 in enumerate(region):
                     if any(isinstance(n, ast.Name) and n.id == x and isinstance(n.ctx, (ast.Store, ast.Del)) for n in ast.walk(s2)):
+                        if isinstance(s2, ast.Assign) and len(s2.targets) == 1 and isinstance(s2.targets[0], ast.Name) and s2.targets[0].id == x:
+                            # `x = f(x)`: the right-hand side still reads THIS binding
+                            extra = [n for n in ast.walk(s2.value) if isinstance(n, ast.Name) and n.id == x and isinstance(n.ctx, ast.Load)]
                         region = region[:j]
                         break
-                uses = [n for s2 in region for n in ast.walk(s2) if isinstance(n, ast.Name) and n.id == x and isinstance(n.ctx, ast.Load)]
+                uses = [n for s2 in region for n in ast.walk(s2) if isinstance(n, ast.Name) and n.id == x and isinstance(n.ctx, ast.Load)] + extra
                 covered += len(uses)
                 plan.append((name_node, uses))
             if covered != loads.get(x, 0):
@@ -2508,7 +2554,7 @@ def _subst_in_first(st, m):
 _cx_counter = [0]
 
 
-def expand_comprehensions(fn):
+def expand_comprehensions(fn, only=None):
     """`x = [e for t in it if c]` -> `x = []` + loop with `x.append(e)` (likewise sets and dicts) when the comprehension
     does not read x; comprehension variables get fresh names (they do not leak in the comprehension form and are not
     read after the loop in the loop form of a refactoring that is equivalent).  `return <comprehension>` first binds it."""
@@ -2516,7 +2562,8 @@ def expand_comprehensions(fn):
         body = getattr(owner, fld)
         pre = []
         for st in body:
-            if isinstance(st, ast.Return) and isinstance(st.value, (ast.ListComp, ast.SetComp, ast.DictComp)):
+            if isinstance(st, ast.Return) and isinstance(st.value, (ast.ListComp, ast.SetComp, ast.DictComp)) \
+                    and (only is None or only(st.value)):
                 _cx_counter[0] += 1
                 t = "__ret%d" % _cx_counter[0]
                 pre.append(ast.copy_location(ast.Assign(targets=[ast.Name(id=t, ctx=ast.Store())], value=st.value), st))
@@ -2527,6 +2574,7 @@ def expand_comprehensions(fn):
         for st in body:
             v = st.value if isinstance(st, ast.Assign) and len(st.targets) == 1 and isinstance(st.targets[0], ast.Name) else None
             if isinstance(v, (ast.ListComp, ast.SetComp, ast.DictComp)) and st.targets[0].id not in _names(v) \
+                    and (only is None or only(v)) \
                     and not any(g.is_async for g in v.generators) \
                     and not (isinstance(v, ast.DictComp) and not is_pure(v.key) and not is_pure(v.value)):
                 x = st.targets[0].id
@@ -2645,6 +2693,70 @@ def _edge_pairs(it):
                     if isinstance(e, ast.Name) and isinstance(loop.target, ast.Name) and loop.target.id == e.id:
                         return _edge_pairs(loop.iter)
     return None
+
+
+_ep_counter = [0]
+
+
+def edge_pair_loops(fn):
+    """networkx: `G.edges()` (no arguments) yields pairs.  `for u, v in G.edges(): ... u ... v` and
+    `for e in G.edges(): ... f(*e)` are both written with one loop variable and its two components e[0], e[1]."""
+    changed = False
+    outside_cache = {}
+    # `for n, k in G.degree(): ...` is `for n in G: k = G.degree(n); ...` (the degree view follows node order)
+    for lp in [n for n in ast.walk(fn) if isinstance(n, ast.For)]:
+        it = lp.iter
+        if isinstance(it, ast.Call) and isinstance(it.func, ast.Attribute) and it.func.attr == "degree" and not it.args and not it.keywords \
+                and isinstance(it.func.value, ast.Name) and not lp.orelse \
+                and isinstance(lp.target, ast.Tuple) and len(lp.target.elts) == 2 and all(isinstance(x, ast.Name) for x in lp.target.elts) \
+                and lp.target.elts[0].id != lp.target.elts[1].id:
+            nd, k = lp.target.elts
+            G_ = it.func.value
+            lp.body.insert(0, ast.Assign(targets=[ast.Name(id=k.id, ctx=ast.Store())], value=ast.Call(
+                func=ast.Attribute(value=ast.Name(id=G_.id, ctx=ast.Load()), attr="degree", ctx=ast.Load()),
+                args=[ast.Name(id=nd.id, ctx=ast.Load())], keywords=[])))
+            lp.target = ast.Name(id=nd.id, ctx=ast.Store())
+            lp.iter = ast.Name(id=G_.id, ctx=ast.Load())
+            changed = True
+    for lp in [n for n in ast.walk(fn) if isinstance(n, ast.For)]:
+        it = lp.iter
+        if not (isinstance(it, ast.Call) and isinstance(it.func, ast.Attribute) and it.func.attr == "edges" and not it.args
+                and not it.keywords and not lp.orelse):
+            continue
+        if isinstance(lp.target, ast.Tuple) and len(lp.target.elts) == 2 and all(isinstance(x, ast.Name) for x in lp.target.elts):
+            a, b = (x.id for x in lp.target.elts)
+            if a == b:
+                continue
+            inside = {id(n) for st in lp.body for n in ast.walk(st)} | {id(n) for n in ast.walk(lp.target)}
+            used_elsewhere = any(isinstance(n, ast.Name) and n.id in (a, b) and id(n) not in inside for n in ast.walk(fn))
+            rebound = any(isinstance(n, ast.Name) and n.id in (a, b) and isinstance(n.ctx, ast.Store) for st in lp.body for n in ast.walk(st))
+            captured = any(isinstance(n, (ast.Lambda, ast.FunctionDef)) for st in lp.body for n in ast.walk(st))
+            if used_elsewhere or rebound or captured:
+                continue
+            _ep_counter[0] += 1
+            e = "__ep%d" % _ep_counter[0]
+            m = {a: ast.Subscript(value=ast.Name(id=e, ctx=ast.Load()), slice=ast.Constant(0), ctx=ast.Load()),
+                 b: ast.Subscript(value=ast.Name(id=e, ctx=ast.Load()), slice=ast.Constant(1), ctx=ast.Load())}
+            lp.body = [_Subst(m).visit(st) for st in lp.body]
+            lp.target = ast.Name(id=e, ctx=ast.Store())
+            changed = True
+        elif isinstance(lp.target, ast.Name):
+            e = lp.target.id
+            for st in lp.body:
+                for c in ast.walk(st):
+                    if isinstance(c, ast.Call) and any(isinstance(x, ast.Starred) and isinstance(x.value, ast.Name) and x.value.id == e for x in c.args):
+                        new = []
+                        for x in c.args:
+                            if isinstance(x, ast.Starred) and isinstance(x.value, ast.Name) and x.value.id == e:
+                                new.append(ast.Subscript(value=ast.Name(id=e, ctx=ast.Load()), slice=ast.Constant(0), ctx=ast.Load()))
+                                new.append(ast.Subscript(value=ast.Name(id=e, ctx=ast.Load()), slice=ast.Constant(1), ctx=ast.Load()))
+                            else:
+                                new.append(x)
+                        c.args = new
+                        changed = True
+    if changed:
+        ast.fix_missing_locations(fn)
+    return changed
 
 
 def networkx_bulk_calls(fn):
@@ -3355,6 +3467,9 @@ def canonical(fn, helpers, sigs=None, cls=None):
     if helpers or loc:
         hs = dict(helpers)
         hs.update(loc)
+        inl0 = Inliner(hs)
+        # a helper called inside `x = {k: h(k) for k in ...}` can be inlined as a statement once the comprehension is a loop
+        expand_comprehensions(f, only=lambda v: any(isinstance(c, ast.Call) and inl0.lookup(c)[0] is not None for c in ast.walk(v)))
         Inliner(hs).run(f)
         # closures that are no longer referenced disappear
         for owner, fld in _blocks_of(f):
@@ -3375,6 +3490,8 @@ def canonical(fn, helpers, sigs=None, cls=None):
     expand_comprehensions(f)
     unroll_literal_loops(f)
     networkx_bulk_calls(f)
+    networkx_bulk_calls(f)
+    edge_pair_loops(f)
     fuse_list_loops(f)
     split_tuples(f)
     rename_apart(f)
@@ -3389,6 +3506,7 @@ def canonical(fn, helpers, sigs=None, cls=None):
         if not (a or b or c or d or e):
             break
     expand_star_tuples(f)
+    edge_pair_loops(f)
     _Idioms().visit(f)
     control_flow(f)
     _ALIAS[0] = alias_classes(f)
